@@ -70,7 +70,7 @@ var c02Gen = TreeGen{MaxDepth: 4, MaxWidth: 4, MinWidth: 0, Conds: 22, CondStack
 
 func c02Tier(tier string) (exh, random int) {
 	if tier == "thorough" {
-		return 4 * 5 * 16 * 16 * 2, 3000000
+		return 4 * 5 * 16 * 16 * 2, 10000000
 	}
 	return 4 * 5 * 16 * 16 * 2, 300000
 }
